@@ -30,7 +30,20 @@ ModelAgrees == MOverride = Effective(Cli, File)
 \* discovery: the file named by -c ("flag"), or typeshare.toml found in the working directory / an ancestor. In the
 \* "flag_over_*" discoveries BOTH exist: the -c file holds `File`, and a decoy typeshare.toml with other values for every
 \* setting lies in the working directory / its parent. The file the user names is the configuration (P: File, never the decoy).
-HasDecoy == disc \in {"flag_over_cwd", "flag_over_parent"}
+\* cwd_over_parent / parent_over_grandparent / cwd_over_all: several ancestors carry a typeshare.toml; the nearest one is the
+\* configuration, the others are decoys.
+HasDecoy == disc \in {"flag_over_cwd", "flag_over_parent", "cwd_over_parent", "parent_over_grandparent", "cwd_over_all"}
+\* the shape of each discovery in Config's vocabulary: [flag given?, levels with a file, level of the file that carries `File`]
+Shape == CASE disc = "flag" -> [flag |-> TRUE, present |-> {}, real |-> "flag"]
+           [] disc = "cwd" -> [flag |-> FALSE, present |-> {0}, real |-> 0]
+           [] disc = "parent" -> [flag |-> FALSE, present |-> {1}, real |-> 1]
+           [] disc = "grandparent" -> [flag |-> FALSE, present |-> {2}, real |-> 2]
+           [] disc = "flag_over_cwd" -> [flag |-> TRUE, present |-> {0}, real |-> "flag"]
+           [] disc = "flag_over_parent" -> [flag |-> TRUE, present |-> {1}, real |-> "flag"]
+           [] disc = "cwd_over_parent" -> [flag |-> FALSE, present |-> {0, 1}, real |-> 0]
+           [] disc = "parent_over_grandparent" -> [flag |-> FALSE, present |-> {1, 2}, real |-> 1]
+           [] disc = "cwd_over_all" -> [flag |-> FALSE, present |-> {0, 1, 2}, real |-> 0]
+DiscoveryOk == ChosenFile(Shape.flag, Shape.present) = Shape.real
 Emit == PrintT(<<"REPLAY", ToJson([cli |-> Cli, file |-> File, disc |-> disc, tables |-> tab, decoy |-> HasDecoy, effective |-> Effective(Cli, File),
                                    gen |-> Effective(Cli, NoFile)])>>)
 =============================================================================
